@@ -42,7 +42,7 @@ struct thr {
 	void (*fn)(int); void *(*pfn)(void *); void *parg; int want_join;
 	int needs_empty;          /* pending action is enabled only on an empty buffer */
 	pthread_mutex_t *want_mutex; int32_t *want_futex; int woken; int wake_reason;
-	int sig_pending; long steps;
+	int sig_pending; long steps; long rets;
 } T[MAXT];
 static struct { pthread_mutex_t *m; int owner; } MX[128]; static int nmx;
 static int mx_idx(pthread_mutex_t *m){ for(int i=0;i<nmx;i++) if(MX[i].m==m) return i; MX[nmx].m=m; MX[nmx].owner=-1; return nmx++; }
@@ -107,6 +107,9 @@ static void yield_point(int needs_empty){
 	T[me].steps++;
 	if(needs_empty) drain(me);   /* no-op in strict mode */
 }
+/* quiet section: hooks neither yield nor log (used for per-thread set-up that must not be scheduled) */
+void vs_quiet_begin(void){ if(me>=0) noyield++; }
+void vs_quiet_end(void){ if(me>=0) noyield--; }
 void vs_atomic_begin(void){ if(me>=0){ yield_point(1); noyield++; } }
 void vs_atomic_end(void){ if(me>=0) noyield--; }
 
@@ -191,7 +194,7 @@ long vh_syscall(long nr, ...){
 int vh_poll(void *fds, unsigned long n, int ms){ (void)fds; (void)n; (void)ms; vh_pre(VK_SLEEP,0,0,0,0,0); return 0; }
 int vh_usleep(unsigned us){ (void)us; vh_pre(VK_SLEEP,0,0,0,0,0); return 0; }
 void vs_call(const char *op, unsigned long a){ if(me<0||noyield) return; yield_point(0); char v[64]; pval(v,a,8); printf("%d call %s %s\n", me, op, v); }
-void vs_ret(const char *op, unsigned long r){ if(me<0||noyield) return; yield_point(0); char v[64]; pval(v,r,8); printf("%d ret %s %s\n", me, op, v); }
+void vs_ret(const char *op, unsigned long r){ if(me<0||noyield) return; yield_point(0); T[me].rets++; char v[64]; pval(v,r,8); printf("%d ret %s %s\n", me, op, v); }
 void vs_note(const char *fmt, ...){ va_list ap; va_start(ap,fmt); printf("%d note ", me); vprintf(fmt,ap); printf("\n"); va_end(ap); }
 
 static int enabled(int t){
@@ -224,10 +227,17 @@ void vs_run(const char *sched){
 	for(;;){
 		int alive=0; for(int t=0;t<NT;t++) alive+=T[t].alive+T[t].nbuf; if(!alive) break;
 		int c; if(*p) c=*p++; else { int t=rr++%NT; if(T[t].nbuf) c='a'+t; else c='0'+t; }
-		if(c>='a'&&c<'a'+NT){ int t=c-'a'; if(T[t].nbuf){ char l[64]; vs_ploc(l,T[t].buf[0].addr); commit_one(t); printf("%d flush %s\n", t, l);} continue; }
+		if(c>='a'&&c<'a'+NT){ int t=c-'a'; if(T[t].nbuf){ char l[64], v[64]; vs_ploc(l,T[t].buf[0].addr); pval(v,T[t].buf[0].v,T[t].buf[0].sz); commit_one(t); printf("%d flush %s v=%s\n", t, l, v);} continue; }
 		if(c>='A'&&c<'A'+NT){ int t=c-'A'; if(T[t].want_futex&&!T[t].woken){ T[t].woken=1; T[t].wake_reason=1; printf("%d spurious\n",t);} continue; }
 		if(c=='!'){ if(*p){ int t=*p++-'0'; if(t>=0&&t<NT&&T[t].want_futex&&!T[t].woken){ T[t].woken=1; T[t].wake_reason=2; } } continue; }
 		if(c=='^'){ if(*p){ int t=*p++-'0'; if(t>=0&&t<NT&&T[t].alive&&sig_handler&&!T[t].want_futex&&T[t].want_join<0){ T[t].sig_pending=1; sem_post(&T[t].go); sem_wait(&ctl);} } continue; }
+		if(c=='>'){ /* run thread t until it completes its current operation (next ret event), flushing its own buffer when needed */
+			if(*p){ int t=*p++-'0'; if(t>=0&&t<NT){ long r0=T[t].rets; int guard=0;
+				while(T[t].alive && T[t].rets==r0 && guard++<5000){
+					if(T[t].needs_empty && T[t].nbuf){ char l[64], v[64]; vs_ploc(l,T[t].buf[0].addr); pval(v,T[t].buf[0].v,T[t].buf[0].sz); commit_one(t); printf("%d flush %s v=%s\n", t, l, v); continue; }
+					if(!enabled(t)) break;
+					sem_post(&T[t].go); sem_wait(&ctl); if(++steps>400000){ printf("STEP LIMIT\n"); fflush(stdout); _exit(3);} } } }
+			continue; }
 		int t=c-'0';
 		if(t<0||t>=NT||!enabled(t)) {
 			if(!*p){ int any=0; for(int u=0;u<NT;u++) any+=enabled(u)+T[u].nbuf;
